@@ -13,13 +13,15 @@ echo "$dout" | grep -E "^VIOLATION"
 [ $drc -eq 2 ] && [ $rc -eq 0 ] && { echo "HARNESS-ERROR debug-profile run failed" >&2; exit 2; }
 dcalls=$(sed -n 's/.*"parse_calls_total": \([0-9]*\).*/\1/p' "$tmp" | head -1); rm -f "$tmp"
 # Miri batch (crate as is: SWAR under Miri)
-mout=$(run_miri "$VERIF_DIR/sim" "" "" miri C01 0 "$mruns" "$SEED")
+mout=$(MIRI_TIMEOUT=$([ "$tier" = thorough ] && echo 3000 || echo 400) run_miri "$VERIF_DIR/sim" "" "" miri C01 0 "$mruns" "$SEED")
 mline=$(echo "$mout" | grep -E "^MIRI-CONN" | head -1)
 echo "  [C01 miri] $mline"
 if echo "$mout" | grep -qE "^error: Undefined Behavior|^MIRI-VIOLATION"; then
     f="$VERIF_DIR/replays/C01-miri-$SEED.json"
     write_replay "$f" "{\"engine\": \"miri\", \"property\": \"C01\", \"manifest\": \"sim\", \"rustflags\": \"\", \"miriflags\": \"\", \"args\": \"miri C01 0 $mruns $SEED\", \"detail\": \"$(echo "$mout" | grep -E '^error: Undefined|^MIRI-VIOLATION' | head -1 | tr -d '"\\' | cut -c1-300)\"}"
     echo "VIOLATION property=C01 replay=$f"; rc=1
+elif [ -z "$mline" ] && [ $rc -ne 0 ]; then
+    echo "  [C01 miri] batch did not finish (the native engines already reported a violation)"
 elif [ -z "$mline" ]; then
     echo "HARNESS-ERROR Miri batch did not run: $(echo "$mout" | grep -E '^error' | head -2)" >&2; exit 2
 fi
